@@ -62,7 +62,9 @@ def _batch(space, tier):
 
 SPEC = dict(
     level="exploration",
-    rule="(attrs also: wide complex types with N attribute uses, N in {10, 63..67, 70, 129..131} - around the 64-slot rows of the scanners' attribute-presence bookkeeping - with a required and a defaulted use last; the first item gives all N attributes, later items of the same type subsets.) (1) particles: every particle tree of the families P1 g{o}(l{o}), P1n g{o}(g{o}(l{o})), P2 g{o}(l{o} l{o}), P2n (three nested two-leaf shapes), "
+    rule="(chains: extension chains T0 <- T1 <- ... of depth 1-2 (thorough 3), every level adding one particle - a local element declaration or a reference to a global one, all assignments - and one attribute, "
+         "declared top-down or bottom-up; items = every element e_j x {declared type, xsi:type of every type derived from it} x every child sequence of <= depth+2 over the chain's element names, "
+         "valid iff the children are exactly the particles of the governing type in order and each is an integer.) (attrs also: wide complex types with N attribute uses, N in {10, 63..67, 70, 129..131} - around the 64-slot rows of the scanners' attribute-presence bookkeeping - with a required and a defaulted use last; the first item gives all N attributes, later items of the same type subsets.) (1) particles: every particle tree of the families P1 g{o}(l{o}), P1n g{o}(g{o}(l{o})), P2 g{o}(l{o} l{o}), P2n (three nested two-leaf shapes), "
          "P3 (three-leaf shapes, thorough), PA all-groups with 1-3 members, PL occurrence ladder (max 5/12), over leaves {element a,b,c; wildcards "
          "##any/##other/##targetNamespace x strict/lax/skip}, compositor {sequence, choice, all(top)}, occurrence pairs from "
          "{(0,1),(1,1),(0,inf),(1,inf),(2,2),(2,3),(0,2),(3,inf)} (per-family subsets listed in docs/c08.md) is one schema = one case. "
@@ -96,9 +98,9 @@ SPEC = dict(
     coverage=_coverage,
     runs=dict(
         quick=[_WITNESS, _particles("quick", 3, 5, 1000, 250), _batch("attrs", "quick"), _batch("content", "quick"), _batch("types", "quick"),
-               _batch("wild", "quick"), _batch("assembly", "quick")],
+               _batch("wild", "quick"), _batch("assembly", "quick"), _batch("chains", "quick")],
         thorough=[_WITNESS, _particles("thorough", 4, 6, 2000, 300, deadline=1250), _batch("attrs", "thorough"), _batch("content", "thorough"), _batch("types", "thorough"),
-                  _batch("wild", "thorough"), _batch("assembly", "thorough")],
+                  _batch("wild", "thorough"), _batch("assembly", "thorough"), _batch("chains", "thorough")],
     ),
     manifest=dict(
         text="Schema-valid iff reported valid for every generated (schema, instance) pair: particle trees up to 2 (quick) / 3 (thorough) leaves with the eight "
